@@ -59,15 +59,15 @@ var bigZeroCoordScalars = []struct {
 }
 
 type c14Case struct {
-	Curve   int     `json:"curve"`            // 256, 384, 521; 0 = Ed25519
-	D       rc.Hex  `json:"d"`                // private scalar (big-endian, exactly as used) or Ed25519 seed
-	XZero   bool    `json:"x_zero,omitempty"` // the point (0, sqrt(b)) (public key only)
-	PubX    rc.Hex  `json:"pub_x,omitempty"`  // public key only: the point with this x coordinate (and the odd / even y)
-	PubYOdd bool    `json:"pub_y_odd,omitempty"`
+	Curve   int    `json:"curve"`            // 256, 384, 521; 0 = Ed25519
+	D       rc.Hex `json:"d"`                // private scalar (big-endian, exactly as used) or Ed25519 seed
+	XZero   bool   `json:"x_zero,omitempty"` // the point (0, sqrt(b)) (public key only)
+	PubX    rc.Hex `json:"pub_x,omitempty"`  // public key only: the point with this x coordinate (and the odd / even y)
+	PubYOdd bool   `json:"pub_y_odd,omitempty"`
 	// InMemX / InMemY: a COSE_Key assembled with NewKeyEC2 from coordinates of these few octets (as big.Int.Bytes()
 	// leaves very small numbers): only the serialised size of the coordinates is judged
-	InMemX rc.Hex `json:"in_mem_x,omitempty"`
-	InMemY rc.Hex `json:"in_mem_y,omitempty"`
+	InMemX  rc.Hex  `json:"in_mem_x,omitempty"`
+	InMemY  rc.Hex  `json:"in_mem_y,omitempty"`
 	Kid     rc.Hex  `json:"kid,omitempty"`
 	Ops     []int64 `json:"ops,omitempty"`
 	HasOps  bool    `json:"has_ops,omitempty"`
